@@ -143,6 +143,10 @@ type Config struct {
 	FaultSteps int        // faults are only injected during the first FaultSteps decisions
 	Replay     []Decision // follow these decisions instead of the policy
 	Lenient    bool       // replay: on mismatch fall back instead of diverging
+	// AuxSeed seeds the auxiliary per-run streams (order of map iteration, math/rand package-level
+	// functions, sync.Pool mode). They must not be split off the choice source at first use: a replay
+	// follows the decision list and draws nothing from it, so the position would differ.
+	AuxSeed uint64
 }
 
 // Stats are per-run counters.
@@ -160,6 +164,7 @@ type Stats struct {
 	MidOpSwitch    int // probe: a task was preempted between two lock acquisitions of one public call
 	AtomicOps      int // scheduling points taken before sync/atomic operations of the code under test
 	Goscheds       int // runtime.Gosched calls of the code under test
+	MapRanges      int // draws made for the order of map iterations of the code under test
 	LibRandStreams int // 1 if the code under test drew from math/rand's package-level functions
 	Sig            uint64
 	SimNanos       int64
@@ -177,6 +182,7 @@ type Sim struct {
 	epoch  uint64
 
 	poolMode     uint8 // 0 undecided, 1 sync.Pool stand-in recycles, 2 drops
+	ord          *Rand // stream behind the order of map iteration in instrumented code
 	lib          *Rand // stream behind math/rand's package-level functions in instrumented code
 	cur          *Task
 	start        time.Time
@@ -456,7 +462,7 @@ func Yield() {
 var libFallback = NewRand(0x5eed)
 
 // LibUint64 serves the package-level functions of math/rand in instrumented code (simrand): a
-// stream of the current run, split off the run's choice source at first use; outside a run a
+// stream of the current run, seeded from the run seed (Config.AuxSeed); outside a run a
 // fixed process-wide stream.
 //
 //go:norace
@@ -466,14 +472,30 @@ func LibUint64() uint64 {
 		return libFallback.Uint64()
 	}
 	if s.lib == nil {
-		s.lib = NewRand(s.rng.Uint64() ^ 0x6c62272e07bb0142)
+		s.lib = NewRand(SplitMix64(s.cfg.AuxSeed ^ 0x6c62272e07bb0142))
 		s.St.LibRandStreams++
 	}
 	return s.lib.Uint64()
 }
 
+// MapOrderIntn serves simiter.Keys: a value in [0,n) from a stream of the current run seeded
+// from the run seed (Config.AuxSeed); outside a run always n-1 (which leaves the sorted order).
+//
+//go:norace
+func MapOrderIntn(n int) int {
+	s := cur()
+	if s == nil || n <= 1 {
+		return n - 1
+	}
+	if s.ord == nil {
+		s.ord = NewRand(SplitMix64(s.cfg.AuxSeed ^ 0x3c6ef372fe94f82b))
+	}
+	s.St.MapRanges++
+	return s.ord.Intn(n)
+}
+
 // PoolDrops reports whether, in this run, the sync.Pool stand-in drops what is put into it
-// (one run in four; drawn from the run's choice source at first use). Outside a run: never.
+// (one run in four, decided by the run seed). Outside a run: never.
 //
 //go:norace
 func PoolDrops() bool {
@@ -483,7 +505,7 @@ func PoolDrops() bool {
 	}
 	if s.poolMode == 0 {
 		s.poolMode = 1
-		if s.rng.Uint64()%4 == 0 {
+		if SplitMix64(s.cfg.AuxSeed^0x1f83d9abfb41bd6b)%4 == 0 {
 			s.poolMode = 2
 		}
 	}
